@@ -114,6 +114,8 @@ pub struct Hist {
     pub wcfg: WorldCfg,
     pub fee: Option<crate::fees::FeeTracker>,
     pub upgrades: u64,
+    /// the canister's (mock) clock, seconds
+    pub now: u64,
 }
 
 fn short(h: &H) -> String {
@@ -176,6 +178,7 @@ impl Hist {
             wcfg,
             fee: None,
             upgrades: 0,
+            now: world::MOCK_NOW_SECS,
         }
     }
 
